@@ -266,53 +266,7 @@ func runC15(p *core.Program, r *core.Report) {
 		c.ob("PT2", "gogu.WrapAllRune", "writes token, rune, token for every rune", c.fpos(fn), okW, "WrapAllRune must write token, the current rune, token - in this order - once per rune of the string")
 	}
 
-	// ---------------- ReverseStr
-	if fn := c.fn("gogu.ReverseStr"); fn != nil {
-		var buf ssa.Value
-		for _, in := range path.Instrs(fn) {
-			if cv, ok := in.(*ssa.Convert); ok && cv.X == ssa.Value(fn.Params[0]) {
-				if sl, ok := cv.Type().Underlying().(*types.Slice); ok {
-					okRune := types.Identical(sl.Elem(), types.Typ[types.Rune])
-					c.ob("PV4", "gogu.ReverseStr", "reverses runes, not bytes", p.InstrPos(cv), okRune, "the string must be converted to []rune before reversing; reversing bytes tears multi-byte characters apart")
-					buf = cv
-				}
-			}
-		}
-		c.ob("PV4", "gogu.ReverseStr", "rune buffer", c.fpos(fn), buf != nil, "no conversion of the argument to a rune slice found")
-		if buf != nil {
-			okSwap, nSt := swapOnly(fn, buf)
-			c.ob("PV4", "gogu.ReverseStr", "only transpositions", c.fpos(fn), okSwap && nSt == 2, "the only stores into the buffer must be the two crossed stores of a swap res[i], res[j] = res[j], res[i]")
-			// two-pointer loop: i from 0 up, j from len-1 down, while i < j
-			okLoop := false
-			for _, b := range fn.Blocks {
-				iff := path.BlockIf(b)
-				if iff == nil {
-					continue
-				}
-				cd, ok := path.CondOf(iff)
-				if !ok || cd.Op != token.LSS || cd.Neg {
-					continue
-				}
-				pi, ok1 := cd.X.(*ssa.Phi)
-				pj, ok2 := cd.Y.(*ssa.Phi)
-				if ok1 && ok2 && phiStep(pi) == +1 && phiStep(pj) == -1 {
-					x := newPathCtx(p)
-					if k, ok := path.IntConst(phiInit(pi)); ok && k == 0 && x.path(phiInit(pj)) == "(len(conv(str))-1)" {
-						okLoop = true
-					}
-				}
-			}
-			c.ob("PV4", "gogu.ReverseStr", "two-pointer walk over the whole buffer", c.fpos(fn), okLoop, "the swap loop must run i from 0 upward and j from len-1 downward while i < j")
-			for _, b := range fn.Blocks {
-				rt, ok := b.Instrs[len(b.Instrs)-1].(*ssa.Return)
-				if !ok {
-					continue
-				}
-				cv, ok := rt.Results[0].(*ssa.Convert)
-				c.ob("PV1", "gogu.ReverseStr", "returns the reversed buffer", p.InstrPos(rt), ok && cv.X == buf, "the result must be T(res) of the reversed rune buffer")
-			}
-		}
-	}
+	checkReverseStr(c)
 
 	// ---------------- Pad functions
 	for _, name := range []string{"gogu.PadLeft", "gogu.PadRight", "gogu.Pad"} {
@@ -662,4 +616,57 @@ func sliceLiteral(v ssa.Value) ([]ssa.Value, bool) {
 		}
 	}
 	return out, true
+}
+
+// checkReverseStr: the rules about ReverseStr (shared by C12 and C15).
+func checkReverseStr(c rc) {
+	p := c.p
+	// ---------------- ReverseStr
+	if fn := c.fn("gogu.ReverseStr"); fn != nil {
+		var buf ssa.Value
+		for _, in := range path.Instrs(fn) {
+			if cv, ok := in.(*ssa.Convert); ok && cv.X == ssa.Value(fn.Params[0]) {
+				if sl, ok := cv.Type().Underlying().(*types.Slice); ok {
+					okRune := types.Identical(sl.Elem(), types.Typ[types.Rune])
+					c.ob("PV4", "gogu.ReverseStr", "reverses runes, not bytes", p.InstrPos(cv), okRune, "the string must be converted to []rune before reversing; reversing bytes tears multi-byte characters apart")
+					buf = cv
+				}
+			}
+		}
+		c.ob("PV4", "gogu.ReverseStr", "rune buffer", c.fpos(fn), buf != nil, "no conversion of the argument to a rune slice found")
+		if buf != nil {
+			okSwap, nSt := swapOnly(fn, buf)
+			c.ob("PV4", "gogu.ReverseStr", "only transpositions", c.fpos(fn), okSwap && nSt == 2, "the only stores into the buffer must be the two crossed stores of a swap res[i], res[j] = res[j], res[i]")
+			// two-pointer loop: i from 0 up, j from len-1 down, while i < j
+			okLoop := false
+			for _, b := range fn.Blocks {
+				iff := path.BlockIf(b)
+				if iff == nil {
+					continue
+				}
+				cd, ok := path.CondOf(iff)
+				if !ok || cd.Op != token.LSS || cd.Neg {
+					continue
+				}
+				pi, ok1 := cd.X.(*ssa.Phi)
+				pj, ok2 := cd.Y.(*ssa.Phi)
+				if ok1 && ok2 && phiStep(pi) == +1 && phiStep(pj) == -1 {
+					x := newPathCtx(p)
+					if k, ok := path.IntConst(phiInit(pi)); ok && k == 0 && x.path(phiInit(pj)) == "(len(conv(str))-1)" {
+						okLoop = true
+					}
+				}
+			}
+			c.ob("PV4", "gogu.ReverseStr", "two-pointer walk over the whole buffer", c.fpos(fn), okLoop, "the swap loop must run i from 0 upward and j from len-1 downward while i < j")
+			for _, b := range fn.Blocks {
+				rt, ok := b.Instrs[len(b.Instrs)-1].(*ssa.Return)
+				if !ok {
+					continue
+				}
+				cv, ok := rt.Results[0].(*ssa.Convert)
+				c.ob("PV1", "gogu.ReverseStr", "returns the reversed buffer", p.InstrPos(rt), ok && cv.X == buf, "the result must be T(res) of the reversed rune buffer")
+			}
+		}
+	}
+
 }
